@@ -909,6 +909,14 @@ def _identity(x):
     return x
 
 
+@_formats("additive-expression-right -> additive-operator times-expression")
+def _additive_expression_right(operator, operand):
+    # "x - -y" must not become "x--y": "--" would start documentation.
+    if operator == "-" and operand.startswith("-"):
+        return operator + " " + operand
+    return operator + operand
+
+
 @_formats("argument-list -> expression comma-then-expression*")
 @_formats("times-expression -> negation-expression times-expression-right*")
 @_formats(
@@ -928,7 +936,6 @@ def _identity(x):
 @_formats('type-reference-tail -> type-word "." type-reference-tail')
 @_formats("field-reference -> snake-reference field-reference-tail*")
 @_formats('abbreviation -> "(" snake-word ")"')
-@_formats("additive-expression-right -> additive-operator times-expression")
 @_formats(
     "additive-expression-right* -> additive-expression-right"
     "                              additive-expression-right*"
